@@ -57,6 +57,32 @@ NP_KERNELS = [
             locals={'idx_sort': 'L[Int]', 'npositive': 'Int'},
             externals={'np.argsort': ('ext_argsort', ['L[Rat]'], 'L[Int]')})),
     ]),
+    ('statetraj.py', 'StateTrajBase', 'StateTraj', [
+        ('state_to_idx', dict(params=['Int'], ret='Int', selfattrs=[('states', 'L[Int]')])),
+    ]),
+    ('msm/timescales.py', 'MsmTimes', None, [
+        # `_estimate_times` has two result types; it is translated once per value of `return_list`
+        ('_estimate_times', dict(
+            lean_name='estimate_times_list', consts={'return_list': True}, ret='L[Int]',
+            param_names=['trajs_states', 'lagtime', 'start', 'final', 'steps', 'cfg_disable_jit'],
+            params=['L[Int]', 'Int', 'L[Int]', 'L[Int]', 'Int', 'Bool'],
+            objects={'trajs': {'attrs': {'states': 'L[Int]'}}}, flags={'numba.config.DISABLE_JIT': 'cfg_disable_jit'},
+            methods={'state_to_idx': ('StateTrajBase', 'state_to_idx', ['states'])},
+            externals={'np.random.choice': ('ext_choice', ['L[Int]'], 'Int'),
+                       '_get_cummat': ('ext_get_cummat', ['Int'], py2lean.CUMMAT, ['trajs', 'lagtime'], ['trajs']),
+                       'estimator': ('ext_estimator', [py2lean.CUMMAT, 'Int', 'L[Int]', 'L[Int]', 'Int'], 'Dict',
+                                     ['cummat', 'start', 'states_from', 'states_to', 'steps'])})),
+        ('_estimate_times', dict(
+            lean_name='estimate_times_hist', consts={'return_list': False}, ret='T[L[Rat],L[Int]]',
+            param_names=['trajs_states', 'lagtime', 'start', 'final', 'steps', 'cfg_disable_jit'],
+            params=['L[Int]', 'Int', 'L[Int]', 'L[Int]', 'Int', 'Bool'],
+            objects={'trajs': {'attrs': {'states': 'L[Int]'}}}, flags={'numba.config.DISABLE_JIT': 'cfg_disable_jit'},
+            methods={'state_to_idx': ('StateTrajBase', 'state_to_idx', ['states'])},
+            externals={'np.random.choice': ('ext_choice', ['L[Int]'], 'Int'),
+                       '_get_cummat': ('ext_get_cummat', ['Int'], py2lean.CUMMAT, ['trajs', 'lagtime'], ['trajs']),
+                       'estimator': ('ext_estimator', [py2lean.CUMMAT, 'Int', 'L[Int]', 'L[Int]', 'Int'], 'Dict',
+                                     ['cummat', 'start', 'states_from', 'states_to', 'steps'])})),
+    ]),
     ('statetraj.py', 'StateTrajHS', 'LumpedStateTraj', [
         ('_estimate_markov_model', dict(
             params=['L[L[Rat]]'], ret='L[L[Rat]]',
@@ -140,14 +166,107 @@ def rat_lit(x):
     return '((%d : Rat) / (%d : Rat))' % (f.numerator, f.denominator)
 
 
+def _dotted(n):
+    parts = []
+    while isinstance(n, ast.Attribute):
+        parts.append(n.attr)
+        n = n.value
+    if isinstance(n, ast.Name):
+        parts.append(n.id)
+        return '.'.join(reversed(parts))
+    return None
+
+
+class _Prep(ast.NodeTransformer):
+    """source-level preparation driven by the signature table (every step is a literal, local rewrite):
+    objects  {'trajs': {'attrs': {...}, 'iter': type?}} : `trajs = StateTraj(trajs)` is dropped, `trajs.<attr>` → `trajs_<attr>`,
+             a bare `trajs` (iteration over the object) → `trajs_iter`;
+    consts   {'return_list': True}  : the parameter is replaced by the constant and `if <constant>` is resolved;
+    flags    {'numba.config.DISABLE_JIT': 'cfg_disable_jit'} : a module-level configuration flag becomes a Bool parameter."""
+
+    def __init__(self, sig):
+        self.objects = sig.get('objects', {})
+        self.consts = sig.get('consts', {})
+        self.flags = sig.get('flags', {})
+
+    def visit_Assign(self, node):
+        if len(node.targets) == 1 and isinstance(node.targets[0], ast.Name) and node.targets[0].id in self.objects \
+                and isinstance(node.value, ast.Call) and _dotted(node.value.func) in ('StateTraj', 'LumpedStateTraj', 'mh.StateTraj') \
+                and len(node.value.args) == 1 and isinstance(node.value.args[0], ast.Name) and node.value.args[0].id == node.targets[0].id:
+            return None          # `trajs = StateTraj(trajs)` : the object is given by its attributes
+        return self.generic_visit(node)
+
+    def visit_Attribute(self, node):
+        d = _dotted(node)
+        if d in self.flags:
+            return ast.copy_location(ast.Name(id=self.flags[d], ctx=ast.Load()), node)
+        if isinstance(node.value, ast.Name) and node.value.id in self.objects and node.attr in self.objects[node.value.id].get('attrs', {}):
+            return ast.copy_location(ast.Name(id='%s_%s' % (node.value.id, node.attr.lstrip('_')), ctx=ast.Load()), node)
+        return self.generic_visit(node)
+
+    def visit_Call(self, node):
+        # keep `obj.method(...)` intact (resolved by the expression compiler), rewrite only the arguments
+        if isinstance(node.func, ast.Attribute) and isinstance(node.func.value, ast.Name) and node.func.value.id in self.objects \
+                and node.func.attr not in self.objects[node.func.value.id].get('attrs', {}):
+            node.args = [self.visit(a) for a in node.args]
+            for k in node.keywords:
+                k.value = self.visit(k.value)
+            return node
+        return self.generic_visit(node)
+
+    def visit_Name(self, node):
+        if isinstance(node.ctx, ast.Load):
+            if node.id in self.consts:
+                return ast.copy_location(ast.Constant(value=self.consts[node.id]), node)
+            if node.id in self.objects and 'iter' in self.objects[node.id]:
+                return ast.copy_location(ast.Name(id=node.id + '_iter', ctx=ast.Load()), node)
+        return node
+
+    def visit_If(self, node):
+        node = self.generic_visit(node)
+        t = node.test
+        neg = False
+        if isinstance(t, ast.UnaryOp) and isinstance(t.op, ast.Not) and isinstance(t.operand, ast.Constant):
+            t, neg = t.operand, True
+        if isinstance(t, ast.Constant) and isinstance(t.value, bool):
+            return node.body if (t.value != neg) else (node.orelse or None)
+        return node
+
+
+def prepare(node, sig):
+    """returns a FunctionDef whose positional parameters are exactly sig['param_names'] (when given)"""
+    if not any(k in sig for k in ('objects', 'consts', 'flags', 'param_names')):
+        return node
+    import copy
+    node = copy.deepcopy(node)          # the same source function may be prepared several times (specialisations)
+    a = node.args
+    node = _Prep(sig).visit(node)
+    ast.fix_missing_locations(node)
+    # statements after an unconditional return (left over from resolved constants) are dropped
+    body = []
+    for st in node.body:
+        body.append(st)
+        if isinstance(st, ast.Return):
+            break
+    names = sig.get('param_names')
+    if names is not None:
+        a = ast.arguments(posonlyargs=[], args=[ast.arg(arg=n) for n in names], vararg=None, kwonlyargs=[], kw_defaults=[], kwarg=None, defaults=[])
+    return ast.FunctionDef(name=node.name, args=a, body=body, decorator_list=[], returns=None, type_comment=None,
+                           lineno=node.lineno, col_offset=node.col_offset)
+
+
 class NpFn(Fn):
     dialect = 'np'
 
     def __init__(self, node, sig, module_fns, src_file, ns='', cls=None):
         self.cls = cls
+        node = prepare(node, sig)
+        self.lean_name = sig.get('lean_name')
+        self.methods = sig.get('methods', {})       # obj.method → (namespace, function, [object attributes passed as the callee's self attributes])
         self.selfattrs = [(a, parse_type(t)) for a, t in sig.get('selfattrs', [])]
         self.externals = {k: (v[0], [parse_type(p) for p in v[1]], parse_type(v[2])) for k, v in sig.get('externals', {}).items()}
         self.ext_argnames = {k: (v[3] if len(v) > 3 else None) for k, v in sig.get('externals', {}).items()}
+        self.ext_drop = {k: (v[4] if len(v) > 4 else []) for k, v in sig.get('externals', {}).items()}
         args = [a.arg for a in node.args.args]
         self.has_self = bool(args and args[0] == 'self')
         if self.has_self:
@@ -186,6 +305,10 @@ class NpFn(Fn):
         self.rename, self.version = {}, {}
         self.depth = 0
         self.used_ext = []
+        self.imports = set()
+
+    def lname_def(self):
+        return self.lean_name or lean_name(self.name)
 
     # ----- helpers
     def needs_fuel(self, seen=None):
@@ -316,6 +439,11 @@ class NpFn(Fn):
                 if not is_mat(t):
                     raise Unsupported('%s: .T of %s' % (self.name, t))
                 return pre, '(npTranspose %s)' % c, t
+            if e.attr == 'size':
+                c, t = sub(e.value)
+                if not is_vec(t):
+                    raise Unsupported('%s: .size of %s' % (self.name, t))
+                return pre, '(pyLen %s)' % c, 'Int'
             if e.attr == 'ndim':
                 c, t = sub(e.value)
                 return pre, ('(2 : Int)' if is_mat(t) else '(1 : Int)'), 'Int'
@@ -413,6 +541,13 @@ class NpFn(Fn):
             return pre, c, t
         if isinstance(e, ast.Subscript):
             sl = e.slice
+            # np.where(b)[0]
+            if isinstance(sl, ast.Constant) and sl.value == 0 and isinstance(e.value, ast.Call) and self._callname(e.value) == 'np.where' \
+                    and len(e.value.args) == 1:
+                c, t = sub(e.value.args[0])
+                if t != ('L', 'Bool'):
+                    raise Unsupported('%s: np.where of %s' % (self.name, t))
+                return pre, '(npWhere1 %s)' % c, ('L', 'Int')
             # x.shape[k]
             if isinstance(sl, ast.Constant) and isinstance(sl.value, int):
                 tv = self.typeof(e.value)
@@ -481,6 +616,60 @@ class NpFn(Fn):
             args = e.args
             kw = {k.arg: k.value for k in e.keywords}
             meth = e.func.attr if isinstance(e.func, ast.Attribute) else None
+            # obj.method(args) of a state-trajectory object given by its attributes
+            if isinstance(e.func, ast.Attribute) and isinstance(e.func.value, ast.Name) and e.func.attr in self.methods \
+                    and (e.func.value.id + '_states') in self.env:
+                ns2, fn2, attrs = self.methods[e.func.attr]
+                callee = REGISTRY.get((ns2, fn2))
+                if callee is None:
+                    raise Unsupported('%s: method %s is not translated' % (self.name, e.func.attr))
+                cs = ['%s_%s' % (e.func.value.id, a_.lstrip('_')) for a_ in attrs]
+                for x, pt in zip(args, callee.ptypes):
+                    c, t = sub(x, want=pt)
+                    cs.append(self.coerce(c, t, pt))
+                c, t = eff('MsmVerif.Gen.%s.%s %s' % (callee.ns, callee.lname_def(), ' '.join(cs)), callee.ret)
+                return pre, c, t
+            if name == 'intersect' and len(args) == 2:
+                # `from msmhelper.md.comparison import _intersect as intersect` : the translated kernel (scalar dialect, fuel-bounded while loop)
+                a, ta = sub(args[0])
+                b, tb = sub(args[1])
+                if ta != ('L', 'Int') or tb != ('L', 'Int'):
+                    raise Unsupported('%s: intersect of %s, %s' % (self.name, ta, tb))
+                self.imports.add('MdComparison')
+                c, t = eff('MsmVerif.Gen.MdComparison.intersect ((%s).length + (%s).length + 1) %s %s' % (a, b, a, b), 'Int')
+                return pre, c, t
+            if name == 'np.unique' and len(args) == 1 and not kw:
+                c, t = sub(args[0])
+                if t == 'Int':
+                    return pre, '[%s]' % c, ('L', 'Int')
+                if t != ('L', 'Int'):
+                    raise Unsupported('%s: np.unique of %s' % (self.name, t))
+                return pre, '(npUnique %s)' % c, t
+            if name == 'np.sort' and len(args) == 1:
+                c, t = sub(args[0])
+                if t != ('L', 'Int'):
+                    raise Unsupported('%s: np.sort of %s' % (self.name, t))
+                return pre, '(npSortInt %s)' % c, t
+            if name == 'np.repeat' and len(args) == 2:
+                a, ta = sub(args[0])
+                b, tb = sub(args[1])
+                if not is_vec(ta) or tb != ('L', 'Int'):
+                    raise Unsupported('%s: np.repeat form' % self.name)
+                c, t = eff('npRepeat %s %s' % (a, b), ta)
+                return pre, c, t
+            if name == 'max' and len(args) == 1 and self.typeof(args[0]) == ('L', 'Int'):
+                c, t = sub(args[0])
+                c, t = eff('npMaxInt %s' % c, 'Int')
+                return pre, c, t
+            if meth in ('keys', 'values', 'items') and not args and self.typeof(e.func.value) == 'Dict':
+                c, t = sub(e.func.value)
+                if meth == 'keys':
+                    return pre, '((%s).map (fun p_ => p_.1))' % c, ('L', 'Int')
+                if meth == 'values':
+                    return pre, '((%s).map (fun p_ => p_.2))' % c, ('L', 'Int')
+                return pre, c, ('L', ('T', 'Int', 'Int'))
+            if name == 'np.where' and len(args) == 1:
+                raise Unsupported('%s: np.where without [0]' % self.name)
             if name == 'np.any' and len(args) == 1:
                 c, t = sub(args[0])
                 c, t = self.truth(c, t)
@@ -663,8 +852,11 @@ class NpFn(Fn):
                     self.used_ext.append(en)
                 cs = []
                 actual = list(args)
+                drop = self.ext_drop.get(name, [])
+                kw = {k: v for k, v in kw.items() if k not in drop}
                 if kw:
                     names = self.ext_argnames.get(name)
+                    names = [n_ for n_ in names if n_ not in drop] if names else names
                     if not names:
                         raise Unsupported('%s: keyword call of external %s' % (self.name, name))
                     for nm in names[len(actual):]:
@@ -703,7 +895,7 @@ class NpFn(Fn):
                         cs.append(self.coerce(c, t, pt))
                     else:
                         raise Unsupported('%s: call of %s misses argument %s' % (self.name, callee.name, p))
-                head = 'MsmVerif.Gen.%s.%s' % (callee.ns, lean_name(callee.name))
+                head = 'MsmVerif.Gen.%s.%s' % (callee.ns, callee.lname_def())
                 ext = ''.join(' ' + x for x in callee.ext_params())
                 for x in callee.ext_params():
                     if x not in self.used_ext:
@@ -861,6 +1053,8 @@ class NpFn(Fn):
             for p in pre:
                 out.append(sp + p)
 
+        if isinstance(s, ast.For) and isinstance(s.iter, ast.Tuple):
+            s = ast.For(target=s.target, iter=ast.List(elts=s.iter.elts, ctx=ast.Load()), body=s.body, orelse=s.orelse)
         if isinstance(s, ast.Assign) and len(s.targets) == 1:
             t = s.targets[0]
             if isinstance(t, ast.Name):
@@ -1018,7 +1212,7 @@ class NpFn(Fn):
             ext += '(%s : %s → Py %s) ' % (en, ' → '.join(lean_atom(p) for p in pts), lean_atom(rt))
         selfp = ' '.join('(self_%s : %s)' % (a.lstrip('_'), lean_type(t)) for a, t in self.selfattrs)
         params = ' '.join('(%s : %s)' % (p, lean_type(t)) for p, t in zip(self.params, self.ptypes))
-        head = 'def %s %s%s%s : Py %s := do' % (lean_name(self.name), ext, (selfp + ' ') if selfp else '', params, lean_atom(self.ret))
+        head = 'def %s %s%s%s : Py %s := do' % (self.lname_def(), ext, (selfp + ' ') if selfp else '', params, lean_atom(self.ret))
         return '\n'.join([head] + lines + body)
 
 
@@ -1026,6 +1220,7 @@ class NpFn(Fn):
 
 def translate_module(repo, relfile, ns, cls, funcs):
     import os
+    import re as _re
     path = os.path.join(repo, 'src', 'msmhelper', relfile)
     src = open(path).read()
     tree = ast.parse(src)
@@ -1037,44 +1232,49 @@ def translate_module(repo, relfile, ns, cls, funcs):
         body = cl[0].body
     nodes = {n.name: n for n in body if isinstance(n, ast.FunctionDef)}
     fns, problems = {}, []
+    order = []
     for name, sig in funcs:
+        key = sig.get('lean_name') or name
         if name not in nodes:
             problems.append('%s: function %s not found in %s' % (ns, name, relfile))
             continue
         try:
-            fns[name] = NpFn(nodes[name], sig, fns, relfile, ns, cls)
+            f = NpFn(nodes[name], sig, fns, relfile, ns, cls)
+            f.key = key
+            fns[name if 'lean_name' not in sig else key] = f
+            order.append(name if 'lean_name' not in sig else key)
         except Unsupported as e:
             problems.append(str(e))
     out = ['/-',
            'GENERATED by harness/py2lean.py (array dialect, harness/np2lean.py) from src/msmhelper/%s — do not edit.' % relfile,
-           'Functions: ' + ', '.join('%s@%s' % (n, py2lean.fn_source_hash(src, nodes[n])) for n, _ in funcs if n in nodes),
+           'Functions: ' + ', '.join('%s@%s' % (sig.get('lean_name') or n, py2lean.fn_source_hash(src, nodes[n])) for n, sig in funcs if n in nodes),
            '-/',
            'import MsmVerif.Gen.NpRt']
     deps = set()
     texts = []
     emitted = []
-    for name, _sig in funcs:
-        if name not in fns:
-            continue
-        f = fns[name]
+    for k in order:
+        f = fns[k]
         try:
             code = f.emit()
         except Unsupported as e:
             problems.append(str(e))
-            fns.pop(name)
+            fns.pop(k)
             continue
         except KeyError as e:
-            problems.append('%s: unknown name %s' % (name, e))
-            fns.pop(name)
+            problems.append('%s: unknown name %s' % (k, e))
+            fns.pop(k)
             continue
-        REGISTRY[(ns, name)] = f
+        REGISTRY[(ns, f.key)] = f
         emitted.append(f)
-        for line in code.split('\n'):
-            for (ns2, _n2) in XREF.values():
-                if 'MsmVerif.Gen.%s.' % ns2 in line and ns2 != ns:
-                    deps.add(ns2)
-        where = ('`%s.%s`' % (cls, name)) if cls else ('`%s`' % name)
-        texts.append('/-- %s of `src/msmhelper/%s` -/' % (where, relfile))
+        for ns2 in _re.findall(r'MsmVerif\.Gen\.([A-Za-z]+)\.', code):
+            if ns2 != ns:
+                deps.add(ns2)
+        where = ('`%s.%s`' % (cls, f.name)) if cls else ('`%s`' % f.name)
+        spec = ''
+        if f.sig.get('consts'):
+            spec = ' specialised to ' + ', '.join('%s=%r' % kv for kv in sorted(f.sig['consts'].items()))
+        texts.append('/-- %s of `src/msmhelper/%s`%s -/' % (where, relfile, spec))
         texts.append(code)
         texts.append('')
     for d in sorted(deps):
@@ -1107,8 +1307,8 @@ def run_module(ns, relfile, emitted, ext_impl):
             extra.append('(%s r)' % ext_impl[en])
         n = len(f.selfattrs) + len(f.params)
         pats = ', '.join('a%d' % i for i in range(n))
-        call = 'MsmVerif.Gen.%s.%s %s' % (ns, lean_name(f.name), ' '.join(extra + ['(← JCodec.dec a%d)' % i for i in range(n)]))
-        out.append('  | "%s", [%s] => do return encPy (%s)' % (f.name, pats, call))
+        call = 'MsmVerif.Gen.%s.%s %s' % (ns, f.lname_def(), ' '.join(extra + ['(← JCodec.dec a%d)' % i for i in range(n)]))
+        out.append('  | "%s", [%s] => do return encPy (%s)' % (getattr(f, 'key', f.name), pats, call))
     out.append('  | k, _ => throw s!"unknown function or arity: {k}"')
     out.append('')
     out.append('end MsmVerif.Gen.%sRun' % ns)
@@ -1120,7 +1320,10 @@ def run_module(ns, relfile, emitted, ext_impl):
 
 # oracle stand-ins for RUNNING the translated code: the oracle's answer is supplied by the harness in the request
 EXT_IMPL = {'ext_peq': 'MsmVerif.GenCodec.oracleVec "peq"', 'ext_argsort': 'MsmVerif.GenCodec.oracleTable "argsort"',
-            'ext_left_eigenvectors': 'MsmVerif.GenCodec.oracleEig "eig"'}
+            'ext_left_eigenvectors': 'MsmVerif.GenCodec.oracleEig "eig"',
+            'ext_choice': 'MsmVerif.GenCodec.oracleConst "choice"',
+            'ext_get_cummat': 'MsmVerif.GenCodec.oracleConst "cummat"',
+            'ext_estimator': 'MsmVerif.GenCodec.oracleConst5 "estimator"'}
 
 
 def translate_all(repo, files, probs):
